@@ -408,6 +408,8 @@ class Process(object):
         proc = sim.new_process(label, parent=sim.cur_proc())
         # copy the interpreter context of the parent
         proc.ctx = dict(sim.cur_proc().ctx)
+        if isinstance(proc.ctx.get('environ'), dict):
+            proc.ctx['environ'] = dict(proc.ctx['environ'])
         if own is not None:
             memo = {}
             child_self = _copy.deepcopy(own, memo)
@@ -621,7 +623,42 @@ class SimOs(object):
     def __init__(self, faulty=()):
         self._faulty = set(faulty)
         self.path    = _os.path
-        self.environ = _os.environ
+
+    # per sim process environment (worlds which need it put an `environ` dict
+    # into the root process context; forks copy it)
+    @property
+    def environ(self):
+        sim = K.CUR
+        if sim is not None:
+            env = sim.cur_proc().ctx.get('environ')
+            if env is not None:
+                return env
+        return _os.environ
+
+    @environ.setter
+    def environ(self, value):
+        sim = K.CUR
+        if sim is not None and 'environ' in sim.cur_proc().ctx:
+            sim.cur_proc().ctx['environ'] = value
+        else:
+            raise K.HarnessError('os.environ replaced outside a sim process '
+                                 'context')
+
+    def getenv(self, key, default=None):
+        return self.environ.get(key, default)
+
+    def chdir(self, path):
+        sim = K.CUR
+        if sim is not None and 'cwd' in sim.cur_proc().ctx:
+            sim.cur_proc().ctx['cwd'] = path
+            return
+        return _os.chdir(path)
+
+    def getcwd(self):
+        sim = K.CUR
+        if sim is not None and 'cwd' in sim.cur_proc().ctx:
+            return sim.cur_proc().ctx['cwd']
+        return _os.getcwd()
 
     def getpid(self):
         return _sim().cur_proc().pid
@@ -659,3 +696,43 @@ class SimOs(object):
                 return real(*a, **kw)
             return wrapped
         return real
+
+
+# ------------------------------------------------------------------------------
+# sys (only for modules which redirect stdio: raptor)
+#
+class SimSys(object):
+    '''`sys` with per sim process stdout / stderr'''
+
+    @property
+    def stdout(self):
+        sim = K.CUR
+        if sim is not None and 'stdout' in sim.cur_proc().ctx:
+            return sim.cur_proc().ctx['stdout']
+        return _sys.stdout
+
+    @stdout.setter
+    def stdout(self, v):
+        sim = K.CUR
+        if sim is not None and 'stdout' in sim.cur_proc().ctx:
+            sim.cur_proc().ctx['stdout'] = v
+        else:
+            raise K.HarnessError('sys.stdout replaced outside a sim context')
+
+    @property
+    def stderr(self):
+        sim = K.CUR
+        if sim is not None and 'stderr' in sim.cur_proc().ctx:
+            return sim.cur_proc().ctx['stderr']
+        return _sys.stderr
+
+    @stderr.setter
+    def stderr(self, v):
+        sim = K.CUR
+        if sim is not None and 'stderr' in sim.cur_proc().ctx:
+            sim.cur_proc().ctx['stderr'] = v
+        else:
+            raise K.HarnessError('sys.stderr replaced outside a sim context')
+
+    def __getattr__(self, k):
+        return getattr(_sys, k)
